@@ -44,6 +44,7 @@ type Profile struct {
 	DupRequests    int           // number of injected duplicate / out-of-order schedule requests
 	TemplateMeta   int           // percent of JobConfigs whose job template carries labels/annotations (incl. furiko-owned keys with stale values)
 	LateJobConfigs int           // percent of JobConfigs created later, at the very instant their first Job is created (JobConfig cache may lag behind the Job cache)
+	DeleteNewest   int           // number of user operations deleting the newest scheduled Job of a JobConfig
 	ClearKillPct   int           // percent of kills followed later by an update that removes spec.killTimestamp again (re-applied manifest)
 	ForceRemovePct int           // percent of Jobs whose finalizers are stripped by the user before deleting them (the object disappears while active)
 }
@@ -163,6 +164,21 @@ func Gen(r *rand.Rand, p Profile) *Workload {
 		wl.Ops = append(wl.Ops, UserOp{At: createAt, Name: "create jobconfig " + ns + "/" + name, Do: func(w *World) {
 			if _, err := w.User.Furiko().ExecutionV1alpha1().JobConfigs(obj.Namespace).Create(context.Background(), obj, metav1.CreateOptions{}); err != nil {
 				w.Mon.Notes = append(w.Mon.Notes, "jobconfig create refused: "+err.Error())
+			}
+		}})
+	}
+	for d := 0; d < p.DeleteNewest; d++ {
+		at := time.Duration(10+r.Intn(p.Spread+40)) * time.Second
+		wl.Ops = append(wl.Ops, UserOp{At: at, Name: "delete the newest scheduled Job", Do: func(w *World) {
+			var newest *execution.Job
+			for _, o := range w.API.List(KJob) {
+				j := o.(*execution.Job)
+				if _, ok := j.Annotations[AnnScheduleTime]; ok && j.DeletionTimestamp == nil && (newest == nil || j.Annotations[AnnScheduleTime] > newest.Annotations[AnnScheduleTime]) {
+					newest = j
+				}
+			}
+			if newest != nil {
+				_ = w.User.Furiko().ExecutionV1alpha1().Jobs(newest.Namespace).Delete(context.Background(), newest.Name, metav1.DeleteOptions{})
 			}
 		}})
 	}
